@@ -364,3 +364,31 @@ def handler_names(h: ast.ExceptHandler) -> Optional[Set[str]]:
 
 def build_cfg(fn: ast.AST) -> CFG:
     return CFG(fn)
+
+
+def node_exprs(node: Node) -> List[ast.AST]:
+    """The expressions / simple statements actually evaluated when control is at this node."""
+    a = node.ast
+    if a is None:
+        return []
+    k = node.kind
+    if k in ("stmt", "return", "raise", "cond"):
+        return [a]
+    if k == "for_iter":
+        return [a.iter]
+    if k == "bind":
+        return [a.target]
+    if k == "with":
+        out = []
+        for it in a.items:
+            out.append(it.context_expr)
+            if it.optional_vars is not None:
+                out.append(it.optional_vars)
+        return out
+    if k == "funcdef":
+        out = list(getattr(a, "decorator_list", []))
+        args = getattr(a, "args", None)
+        if args is not None:
+            out += [d for d in list(args.defaults) + list(args.kw_defaults) if d is not None]
+        return out
+    return []
